@@ -17,7 +17,8 @@ func vpStyle() NameStyle {
 }
 
 func VPH_recordBlob() {
-	g := NewGraph(vpStyle())
+	style := vpStyle()
+	g := NewGraph(style)
 	s := &g.historySize
 	vpFreeHistory(s)
 	size := vp_U32("size")
@@ -31,16 +32,16 @@ func VPH_recordBlob() {
 	oldMax := want[vpiMaxBlob]
 	want[vpiMaxBlob] = vpMax(oldMax, uint64(size))
 	vpExpect(vpNumbers(s), want, "recordBlob")
-	vpWitness(g, s.MaxBlobSizeBlob, oldPath, uint64(size) > oldMax, "blob")
+	vpWitness(style, s.MaxBlobSizeBlob, oldPath, uint64(size) > oldMax, "blob")
 	vp_Reach("end")
 }
 
 // vpWitness: the cited object is replaced exactly when the maximum was
 // raised, names the recorded object with the right kind, and with
 // --names=none nothing is ever cited.
-func vpWitness(g *Graph, now, before *Path, replaced bool, kind string) {
-	if _, none := g.pathResolver.(NullPathResolver); none && !g.pathResolver.(NullPathResolver).useHash {
-		vp_Assert(now == nil, "names=none: no witness for "+kind)
+func vpWitness(style NameStyle, now, before *Path, replaced bool, kind string) {
+	if style == NameStyleNone {
+		vp_Assert(now == nil, "names=none: no object is cited ("+kind+")")
 		return
 	}
 	if replaced {
@@ -55,7 +56,8 @@ func vpWitness(g *Graph, now, before *Path, replaced bool, kind string) {
 }
 
 func VPH_recordTree() {
-	g := NewGraph(vpStyle())
+	style := vpStyle()
+	g := NewGraph(style)
 	s := &g.historySize
 	vpFreeHistory(s)
 	ts := vpFreeTreeSize("t")
@@ -79,13 +81,14 @@ func VPH_recordTree() {
 	want[vpiXLinks] = vpMax(want[vpiXLinks], uint64(ts.ExpandedLinkCount))
 	want[vpiXSubs] = vpMax(want[vpiXSubs], uint64(ts.ExpandedSubmoduleCount))
 	vpExpect(vpNumbers(s), want, "recordTree")
-	vpWitness(g, s.MaxTreeEntriesTree, oldEntriesPath, uint64(entries) > old[vpiMaxEntries], "tree")
-	vpWitness(g, s.MaxPathDepthTree, oldDepthPath, uint64(ts.MaxPathDepth) > old[vpiPDepth], "tree")
+	vpWitness(style, s.MaxTreeEntriesTree, oldEntriesPath, uint64(entries) > old[vpiMaxEntries], "tree")
+	vpWitness(style, s.MaxPathDepthTree, oldDepthPath, uint64(ts.MaxPathDepth) > old[vpiPDepth], "tree")
 	vp_Reach("end")
 }
 
 func VPH_recordCommit() {
-	g := NewGraph(vpStyle())
+	style := vpStyle()
+	g := NewGraph(style)
 	s := &g.historySize
 	vpFreeHistory(s)
 	size := vp_U32("size")
@@ -104,13 +107,14 @@ func VPH_recordCommit() {
 	want[vpiParents] = vpMax(want[vpiParents], uint64(parents))
 	vpExpect(vpNumbers(s), want, "recordCommit")
 	// commits use >= (prefer the newest on ties)
-	vpWitness(g, s.MaxCommitSizeCommit, oldSizePath, uint64(size) >= old[vpiMaxCommit], "commit")
-	vpWitness(g, s.MaxParentCountCommit, oldParentsPath, uint64(parents) >= old[vpiParents], "commit")
+	vpWitness(style, s.MaxCommitSizeCommit, oldSizePath, uint64(size) >= old[vpiMaxCommit], "commit")
+	vpWitness(style, s.MaxParentCountCommit, oldParentsPath, uint64(parents) >= old[vpiParents], "commit")
 	vp_Reach("end")
 }
 
 func VPH_recordTag() {
-	g := NewGraph(vpStyle())
+	style := vpStyle()
+	g := NewGraph(style)
 	s := &g.historySize
 	vpFreeHistory(s)
 	size := vp_U32("size")
@@ -124,7 +128,7 @@ func VPH_recordTag() {
 	want[vpiTags] = vpInc32(want[vpiTags])
 	want[vpiTagDepth] = vpMax(want[vpiTagDepth], uint64(depth))
 	vpExpect(vpNumbers(s), want, "recordTag")
-	vpWitness(g, s.MaxTagDepthTag, oldPath, uint64(depth) > old[vpiTagDepth], "tag")
+	vpWitness(style, s.MaxTagDepthTag, oldPath, uint64(depth) > old[vpiTagDepth], "tag")
 	vp_Reach("end")
 }
 
